@@ -325,7 +325,7 @@ def run_config(key):
         # z^H B^-1 z amplifies rounding by cond(B) = max / min eigenvalue (1e10 when the eigenvalue floor is
         # active on rank-deficient data); predict and the public log_pdf sum in different orders
         lam = np.asarray(m.cacg.covariance_eigenvalues, dtype=float)
-        rt = rt + 1e-14 * float((lam.max(-1) / lam.min(-1)).max())
+        rt = rt + (1e-6 if c['single'] else 1e-14) * float((lam.max(-1) / lam.min(-1)).max())
     badm = tol.mismatch(post, want, rt, what=f'{model} posterior vs Bayes rule')
     if badm:
         return viol(badm, post, want)
